@@ -913,6 +913,44 @@ def _r08d(chk, repo) -> None:
                 )
     chk.count("R08d.stand_in_stores", n)
     chk.floor("R08d.stand_in_stores", 2)
+    # bulk forms: a table of stand-ins (an ALL-CAPS module-level mapping such as DBT_BUILTINS) merged into a context
+    # must not win over what is already there
+    tables = {t.id for st in m.tree.body if isinstance(st, (ast.Assign, ast.AnnAssign)) for t in (st.targets if isinstance(st, ast.Assign) else [st.target])
+              if isinstance(t, ast.Name) and t.id.isupper() and isinstance(st.value, (ast.Dict, ast.Call, ast.DictComp))}
+    tables |= {a.asname or a.name for st in m.tree.body if isinstance(st, ast.ImportFrom) for a in st.names if (a.asname or a.name).isupper() and "BUILTINS" in (a.asname or a.name)}
+    n_bulk = n_uses = 0
+    for q, f in m.functions():
+        for node in walk_local(f):
+            bad = None
+            if isinstance(node, ast.Dict):
+                spread = [(i, v) for i, (k, v) in enumerate(zip(node.keys, node.values)) if k is None]
+                for i, v in spread:
+                    if isinstance(v, ast.Name) and v.id in tables:
+                        n_uses += 1
+                        if any(j < i for j, _ in spread):
+                            bad = f"`{short(node, 60)}` lists {v.id} after the context it is merged into"
+            elif isinstance(node, ast.Call) and last_attr(node) == "update" and isinstance(node.func, ast.Attribute) and node.args and isinstance(node.args[0], ast.Name) and node.args[0].id in tables:
+                n_uses += 1
+                bad = f"`{short(node, 60)}` overwrites the entries already present"
+            elif isinstance(node, ast.BinOp) and isinstance(node.op, ast.BitOr) and isinstance(node.right, ast.Name) and node.right.id in tables:
+                n_uses += 1
+                bad = f"`{short(node, 60)}` lets {node.right.id} win"
+            elif isinstance(node, ast.AugAssign) and isinstance(node.op, ast.BitOr) and isinstance(node.value, ast.Name) and node.value.id in tables:
+                n_uses += 1
+                bad = f"`{short(node, 60)}` overwrites the entries already present"
+            if bad:
+                n_bulk += 1
+                chk.fail(
+                    "R08d", node,
+                    f"{q}: {bad}: a context variable (or library) the user defined under the name of a stand-in (`this`, `var`, `config`, `ref`, ..) is replaced by the stand-in, "
+                    "so the render differs from Jinja's render of the user's context",
+                    detail=f"{q}: stand-in table merged without overwriting the context",
+                )
+            elif isinstance(node, (ast.Subscript, ast.For)) and any(isinstance(x, ast.Name) and x.id in tables for x in ([node.value] if isinstance(node, ast.Subscript) else [node.iter])):
+                n_uses += 1
+    chk.count("R08d.stand_in_table_uses", n_uses)
+    chk.count("R08d.bulk_merges_that_overwrite", n_bulk)
+    chk.require(n_uses > 0 or not tables, "R08d", None, "the stand-in table is never applied (anchor changed?)", detail="stand-in table is applied", construct=JINJA)
 
 
 def run(chk) -> None:
@@ -959,6 +997,24 @@ from ..selftest import Variant  # noqa: E402
 DBT = "plugins/sqlfluff-templater-dbt/sqlfluff_templater_dbt/templater.py"
 
 VARIANTS = [
+    Variant(
+        "dbt-builtins-merged-over-the-context", JINJA,
+        "                for name in DBT_BUILTINS:\n                    # Only apply if it hasn't already been set at this stage.\n                    if name not in live_context:\n                        live_context[name] = DBT_BUILTINS[name]\n",
+        "                live_context = {**live_context, **DBT_BUILTINS}\n",
+        "R08d", "_get_env_context", "seeded C08-3: a context variable named `this` / `var` / `config` is replaced by the dbt mock",
+    ),
+    Variant(
+        "dbt-builtins-update-the-context", JINJA,
+        "                for name in DBT_BUILTINS:\n                    # Only apply if it hasn't already been set at this stage.\n                    if name not in live_context:\n                        live_context[name] = DBT_BUILTINS[name]\n",
+        "                live_context.update(DBT_BUILTINS)\n",
+        "R08d", "_get_env_context",
+    ),
+    Variant(
+        "quiet-dbt-builtins-as-defaults-below-the-context", JINJA,
+        "                for name in DBT_BUILTINS:\n                    # Only apply if it hasn't already been set at this stage.\n                    if name not in live_context:\n                        live_context[name] = DBT_BUILTINS[name]\n",
+        "                live_context = {**DBT_BUILTINS, **live_context}\n",
+        "QUIET", None, "R08d: builtins first, the context on top: the same defaults-only merge",
+    ),
     Variant(
         "undefined-tracking-replaces-none-valued-variables", JINJA,
         "            if val not in live_context:\n                if ignore_templating:\n",
